@@ -3,7 +3,7 @@
 From Coq Require Import List NArith ZArith Bool Lia.
 Import ListNotations.
 From Emu.Common Require Import Bytes Str StrProofs.
-From Emu.BT Require Import Types Mutate Filter Gc RowSet Server ScanProofs AdminProofs ConcProofs Disk.
+From Emu.BT Require Import Types Mutate Filter Gc RowSet Server ScanProofs AdminProofs ConcProofs Disk DiskCheck.
 From Emu.BT Require Import CellSpec CellProofs MutateProofs.
 
 (* ------------------------------------------------------------------ *)
@@ -118,14 +118,16 @@ Inductive dstep_spec (d : dstate) (c : call) : dstate * bresp * list (bytes * im
     alookup name (ds_mem d) = None ->
     step (ds_mem d) c = (set_table (ds_mem d) name (mkTable tf []), rsp) -> br_code rsp = cOK ->
     let im0 := image_of d in
-    let im1 := match alookup name (im_dirs im0) with Some _ => im0 | None => set_dir im0 name (Some []) end in
+    let imc := set_dir im0 name None in
+    let im1 := set_dir imc name (Some []) in
     let im2 := set_meta im1 name tf in
     let im3 := set_dir im2 name None in
     dstep_spec d c (mkDState (set_table (ds_mem d) name (mkTable tf [])) (ainsert name tf (ds_meta d)) (aremove name (ds_orphans d)),
-                    rsp, [(s_meta_tmp, im1); (s_meta_renamed, im2); (s_db_removed, im3)])
+                    rsp, [(s_create_cleaned, imc); (s_meta_tmp, im1); (s_meta_renamed, im2); (s_db_removed, im3)])
 | DS_delete name t rsp : cl_req c = BDeleteTable name -> alookup name (ds_mem d) = Some t ->
     step (ds_mem d) c = (aremove name (ds_mem d), rsp) -> br_code rsp = cOK ->
-    dstep_spec d c (mkDState (aremove name (ds_mem d)) (aremove name (ds_meta d)) (aremove name (ds_orphans d)), rsp, [])
+    dstep_spec d c (mkDState (aremove name (ds_mem d)) (aremove name (ds_meta d)) (aremove name (ds_orphans d)), rsp,
+                    [(s_delete_undefined, unset_meta (image_of d) name)])
 | DS_modify name mods t rsp : cl_req c = BModifyFamilies name mods -> alookup name (ds_mem d) = Some t ->
     let t' := apply_mods t mods in let mem' := set_table (ds_mem d) name t' in
     step (ds_mem d) c = (mem', rsp) -> br_code rsp = cOK ->
@@ -198,7 +200,7 @@ Proof.
 Qed.
 
 Ltac dstep_cases d c :=
-  destruct (dstep_spec_ok d c) as [rsp Hsp Hc E|parent tid fams rsp R name tf Hl E Hc im0 im1 im2 im3|name t rsp R Hl E Hc
+  destruct (dstep_spec_ok d c) as [rsp Hsp Hc E|parent tid fams rsp R name tf Hl E Hc im0 imc im1 im2 im3|name t rsp R Hl E Hc
                                   |name mods t rsp R Hl t' mem' E Hc d1|name pfx t rsp R Hl mem' E Hc|Hsp].
 
 (* ------------------------------------------------------------------ *)
@@ -279,7 +281,9 @@ Record disk_inv (d : dstate) : Prop := mkInv {
   di_orph_rows : forall n r, alookup n (ds_orphans d) = Some r -> asorted r;
   di_disjoint : forall n t, alookup n (ds_mem d) = Some t -> alookup n (ds_orphans d) = None }.
 
-(* every orphan directory is empty (true of everything the instrumented crash points can leave) *)
+(* every orphan directory is empty.  Preserved by requests and by restarts at request boundaries,
+   NOT by a restart on the image of DeleteTable's crash point (disk.delete.undefined leaves the
+   directory with its rows: [dreach_orphan_with_rows]); no theorem below assumes it *)
 Definition orphans_empty (d : dstate) : Prop := forall n r, alookup n (ds_orphans d) = Some r -> r = [].
 
 Lemma init_inv : disk_inv init_dstate.
@@ -559,6 +563,13 @@ Proof.
     + rewrite alookup_aremove_other by auto. reflexivity.
 Qed.
 
+Lemma alookup_restart_unset_meta im name n : asorted (im_meta im) ->
+  alookup n (restart (unset_meta im name)) = if beqb n name then None else alookup n (restart im).
+Proof.
+  intros Hs. rewrite !alookup_restart. cbn [unset_meta im_meta]. rewrite alookup_aremove by auto.
+  destruct (beqb n name); reflexivity.
+Qed.
+
 (* the ModifyFamilies requests for which crash atomicity holds: the purge of dropped families
    rewrites no row, or the request leaves the families as they were *)
 Definition no_effective_drop (s : server) (c : call) : Prop :=
@@ -572,37 +583,45 @@ Definition no_effective_drop (s : server) (c : call) : Prop :=
 Lemma table_eta t : mkTable (t_fams t) (t_rows t) = t.
 Proof. destruct t; reflexivity. Qed.
 
-(* core: against the in-memory states before and after *)
-Lemma crash_atomic_mem d c : disk_inv d -> orphans_empty d -> no_effective_drop (ds_mem d) c ->
+(* core: against the in-memory states before and after.  No hypothesis on the directories left
+   without a definition: they may hold rows (a DeleteTable killed at disk.delete.undefined) *)
+Lemma crash_atomic_mem d c : disk_inv d -> no_effective_drop (ds_mem d) c ->
   forall nm im, In (nm, im) (snd (dstep d c)) ->
   srv_eq (restart im) (ds_mem d) \/ srv_eq (restart im) (ds_mem (fst (fst (dstep d c)))).
 Proof.
-  intros Hi He Hg nm im Hin. pose proof (restart_image_of d Hi) as Hb.
+  intros Hi Hg nm im Hin. pose proof (restart_image_of d Hi) as Hb.
   pose proof (iw_dirs _ (image_of_wf d Hi)) as Hds. pose proof (disk_inv_step d c Hi) as Hi'.
   dstep_cases d c; cbn [fst snd ds_mem] in *; try contradiction.
-  - (* create *)
+  - (* create: the leftover directory is removed first *)
     assert (Hmeta : alookup name (im_meta im0) = None).
     { unfold im0. cbn [image_of im_meta]. rewrite (di_meta _ Hi), Hl. reflexivity. }
-    assert (H1 : forall n, alookup n (restart im1) = alookup n (ds_mem d)).
-    { intros n. rewrite <- Hb. unfold im1. destruct (alookup name (im_dirs im0)); auto. fold im0.
-      rewrite alookup_restart_set_dir by auto. destruct (beqb n name) eqn:En; auto.
+    assert (Hdc : asorted (im_dirs imc)) by (unfold imc; cbn [set_dir im_dirs]; apply aremove_sorted; auto).
+    assert (Hc0 : forall n, alookup n (restart imc) = alookup n (ds_mem d)).
+    { intros n. rewrite <- Hb. fold im0. unfold imc. rewrite alookup_restart_set_dir by auto.
+      destruct (beqb n name) eqn:En; auto.
       apply beqb_eq in En. subst. rewrite Hmeta, alookup_restart, Hmeta. reflexivity. }
-    assert (Hm1 : im_meta im1 = im_meta im0) by (unfold im1; destruct (alookup name (im_dirs im0)); reflexivity).
-    assert (Hd1 : asorted (im_dirs im1)).
-    { unfold im1. destruct (alookup name (im_dirs im0)); auto. cbn [set_dir im_dirs]. apply ainsert_sorted. auto. }
+    assert (H1 : forall n, alookup n (restart im1) = alookup n (ds_mem d)).
+    { intros n. rewrite <- Hc0. unfold im1. rewrite alookup_restart_set_dir by auto.
+      destruct (beqb n name) eqn:En; auto.
+      apply beqb_eq in En. subst. rewrite alookup_restart. change (im_meta imc) with (im_meta im0).
+      rewrite Hmeta. reflexivity. }
     assert (Hr1 : dir_rows im1 name = []).
-    { unfold im1, dir_rows. destruct (alookup name (im_dirs im0)) as [r|] eqn:Ed.
-      - rewrite Ed. unfold im0 in Ed. rewrite alookup_image_dirs, Hl in Ed by auto. apply (He _ _ Ed).
-      - cbn [set_dir im_dirs]. rewrite alookup_ainsert_same. reflexivity. }
+    { unfold im1, dir_rows. cbn [set_dir im_dirs]. rewrite alookup_ainsert_same. reflexivity. }
     assert (H2 : forall n, alookup n (restart im2) = alookup n (set_table (ds_mem d) name (mkTable tf []))).
     { intros n. unfold im2. rewrite alookup_restart_set_meta, H1, Hr1. unfold set_table. rewrite alookup_ainsert. reflexivity. }
-    destruct Hin as [Hin|[Hin|[Hin|[]]]]; injection Hin as _ <-.
+    destruct Hin as [Hin|[Hin|[Hin|[Hin|[]]]]]; injection Hin as _ <-.
+    + left. exact Hc0.
     + left. exact H1.
     + right. exact H2.
-    + right. intros n. unfold im3. rewrite alookup_restart_set_dir by (unfold im2; cbn [set_meta im_dirs]; auto).
+    + right. intros n. unfold im3.
+      rewrite alookup_restart_set_dir by (unfold im2, im1; cbn [set_meta set_dir im_dirs]; apply ainsert_sorted; auto).
       rewrite <- H2. destruct (beqb n name) eqn:En; auto. apply beqb_eq in En. subst.
       unfold im2 at 2. rewrite alookup_restart_set_meta, beqb_refl, Hr1. unfold im2. cbn [set_meta im_meta].
       rewrite alookup_ainsert_same. reflexivity.
+  - (* delete: the definition file is gone, the directory is still there *)
+    destruct Hin as [Hin|[]]; injection Hin as _ <-.
+    right. intros n. rewrite alookup_restart_unset_meta by (cbn [image_of im_meta]; apply (di_meta_sorted _ Hi)).
+    rewrite Hb. rewrite alookup_aremove by (apply (di_mem _ Hi)). reflexivity.
   - (* modify *)
     destruct Hin as [Hin|[Hin|[]]]; injection Hin as _ <-.
     + assert (Hs' : asorted mem') by (unfold mem', set_table; apply ainsert_sorted; apply (di_mem _ Hi)).
@@ -630,15 +649,16 @@ Qed.
    the request.  PARTIAL: guarded by [no_effective_drop] (a ModifyFamilies that drops a family
    holding cells is excluded: finding BT-18, refuted below; the guard is exact, see
    [crash_modify_first_point_exact]) *)
-Theorem crash_atomic_partial : forall d c, disk_inv d -> orphans_empty d -> no_effective_drop (ds_mem d) c ->
+Theorem crash_atomic_partial : forall d c, disk_inv d -> no_effective_drop (ds_mem d) c ->
   forall nm im, In (nm, im) (snd (dstep d c)) ->
   srv_eq (restart im) (restart (image_of d)) \/ srv_eq (restart im) (restart (image_of (fst (fst (dstep d c))))).
 Proof.
-  intros d c Hi He Hg nm im Hin. rewrite !restart_image_of_eq by auto using disk_inv_step.
+  intros d c Hi Hg nm im Hin. rewrite !restart_image_of_eq by auto using disk_inv_step.
   eapply crash_atomic_mem; eauto.
 Qed.
 
-(* the requests without any crash point: each is a sequence of single-key leveldb operations *)
+(* the requests without any crash point: each is a sequence of single-key leveldb operations
+   (DeleteTable has one since the directory is removed after the definition file: [crash_in_delete_is_after]) *)
 Theorem no_crash_points : forall d c, disk_special (cl_req c) = false -> snd (dstep d c) = [].
 Proof.
   intros d c H. dstep_cases d c; try reflexivity; try (rewrite R in H; discriminate).
@@ -651,11 +671,9 @@ Corollary row_requests_no_crash_points : forall d now coins,
   /\ (forall tbl key rules, snd (dstep d (mkCall (BReadModifyWrite tbl key rules) now coins)) = [])
   /\ (forall tbl pfx, snd (dstep d (mkCall (BDropRowRange tbl false pfx) now coins)) = [])
   /\ (forall tbl, snd (dstep d (mkCall (BRunGC tbl) now coins)) = [])
-  /\ (forall tbl keys ranges f limit, snd (dstep d (mkCall (BReadRows tbl keys ranges f limit) now coins)) = [])
-  /\ (forall tname, snd (dstep d (mkCall (BDeleteTable tname) now coins)) = []).
+  /\ (forall tbl keys ranges f limit, snd (dstep d (mkCall (BReadRows tbl keys ranges f limit) now coins)) = []).
 Proof.
-  intros d now coins. repeat split; intros; try (apply no_crash_points; reflexivity).
-  dstep_cases d (mkCall (BDeleteTable tname) now coins); try reflexivity; discriminate.
+  intros d now coins. repeat split; intros; apply no_crash_points; reflexivity.
 Qed.
 
 (* the crash points a request passes, by name, in code order *)
@@ -663,7 +681,8 @@ Theorem crash_point_names : forall d c,
   map fst (snd (dstep d c)) =
   if negb (N.eqb (br_code (snd (fst (dstep d c)))) cOK) then [] else
   match cl_req c with
-  | BCreateTable _ _ _ => [s_meta_tmp; s_meta_renamed; s_db_removed]
+  | BCreateTable _ _ _ => [s_create_cleaned; s_meta_tmp; s_meta_renamed; s_db_removed]
+  | BDeleteTable _ => [s_delete_undefined]
   | BModifyFamilies _ _ => [s_meta_tmp; s_meta_renamed]
   | BDropRowRange _ true _ => [s_clear_closed; s_db_removed]
   | _ => []
@@ -738,48 +757,49 @@ Proof. intros H. unfold no_effective_drop. destruct (cl_req c); auto. exfalso. e
 (* repeated crash/restart cycles: everything reachable by requests, clean restarts and restarts *)
 (* on the image of any crash point                                     *)
 (* ------------------------------------------------------------------ *)
-Lemma set_dir_ok im n r : image_ok im -> r = Some [] \/ r = None -> image_ok (set_dir im n r).
+Lemma set_dir_wf im n r : image_wf im -> (forall x, r = Some x -> asorted x) -> image_wf (set_dir im n r).
 Proof.
-  intros [[Hm Hf Hd Hr] He] Hcase. split; [split|]; cbn [set_dir im_meta im_dirs]; auto.
-  - destruct Hcase as [-> | ->]; auto using ainsert_sorted, aremove_sorted.
-  - intros k x. destruct Hcase as [-> | ->].
-    + rewrite alookup_ainsert. destruct (beqb k n); [intros H; injection H as <-; constructor|eauto].
-    + rewrite alookup_aremove by auto. destruct (beqb k n); [discriminate|eauto].
-  - intros k x Hk. destruct Hcase as [-> | ->].
-    + rewrite alookup_ainsert. destruct (beqb k n); [intros H; injection H as <-; reflexivity|eauto].
+  intros [Hm Hf Hd Hr] Hx. split; cbn [set_dir im_meta im_dirs]; auto.
+  - destruct r; auto using ainsert_sorted, aremove_sorted.
+  - intros k x. destruct r as [y|].
+    + rewrite alookup_ainsert. destruct (beqb k n); [intros H; injection H as <-; auto|eauto].
     + rewrite alookup_aremove by auto. destruct (beqb k n); [discriminate|eauto].
 Qed.
 
-Lemma set_meta_ok im n f : image_ok im -> asorted f -> image_ok (set_meta im n f).
+Lemma set_meta_wf im n f : image_wf im -> asorted f -> image_wf (set_meta im n f).
 Proof.
-  intros [[Hm Hf Hd Hr] He] Hs. split; [split|]; cbn [set_meta im_meta im_dirs]; auto using ainsert_sorted.
-  - intros k x. rewrite alookup_ainsert. destruct (beqb k n); [intros H; injection H as <-; auto|eauto].
-  - intros k x. rewrite alookup_ainsert. destruct (beqb k n); [discriminate|eauto].
+  intros [Hm Hf Hd Hr] Hs. split; cbn [set_meta im_meta im_dirs]; auto using ainsert_sorted.
+  intros k x. rewrite alookup_ainsert. destruct (beqb k n); [intros H; injection H as <-; auto|eauto].
 Qed.
 
-Theorem crash_image_ok : forall d c nm im, disk_inv d -> orphans_empty d ->
-  In (nm, im) (snd (dstep d c)) -> image_ok im.
+Lemma unset_meta_wf im n : image_wf im -> image_wf (unset_meta im n).
 Proof.
-  intros d c nm im Hi He Hin. pose proof (image_of_ok d Hi He) as Hok. pose proof (disk_inv_step d c Hi) as Hi'.
+  intros [Hm Hf Hd Hr]. split; cbn [unset_meta im_meta im_dirs]; auto using aremove_sorted.
+  intros k x. rewrite alookup_aremove by auto. destruct (beqb k n); [discriminate|eauto].
+Qed.
+
+(* the image at every crash point is a well-formed directory image (it may contain directories
+   with rows and without a definition) *)
+Theorem crash_image_wf : forall d c nm im, disk_inv d ->
+  In (nm, im) (snd (dstep d c)) -> image_wf im.
+Proof.
+  intros d c nm im Hi Hin. pose proof (image_of_wf d Hi) as Hok. pose proof (disk_inv_step d c Hi) as Hi'.
+  assert (Hnil : forall x : rows_t, Some [] = Some x -> asorted x) by (intros x H; injection H as <-; constructor).
+  assert (Hnone : forall x : rows_t, None = Some x -> asorted x) by discriminate.
   dstep_cases d c; cbn [fst snd] in *; try contradiction.
   - assert (Htf : asorted tf) by apply make_fams_sorted.
-    assert (H1 : image_ok im1).
-    { unfold im1. destruct (alookup name (im_dirs im0)); auto. apply set_dir_ok; auto. }
-    destruct Hin as [Hin|[Hin|[Hin|[]]]]; injection Hin as _ <-; auto.
-    + apply set_meta_ok; auto.
-    + apply set_dir_ok; auto. apply set_meta_ok; auto.
+    assert (Hc0 : image_wf imc) by (apply set_dir_wf; auto).
+    assert (H1 : image_wf im1) by (apply set_dir_wf; auto).
+    assert (H2 : image_wf im2) by (apply set_meta_wf; auto).
+    destruct Hin as [Hin|[Hin|[Hin|[Hin|[]]]]]; injection Hin as _ <-; auto.
+    apply set_dir_wf; auto.
+  - destruct Hin as [Hin|[]]; injection Hin as _ <-. apply unset_meta_wf; auto.
   - assert (Hw' : table_wf t').
     { destruct (di_mem _ Hi') as [_ Ht]. cbn [ds_mem] in Ht. apply (Ht name). unfold mem'. apply alookup_set_table_same. }
-    assert (H1 : image_ok (image_of d1)).
-    { split.
-      - apply image_of_wf_gen; unfold d1; cbn [ds_mem ds_meta ds_orphans]; try apply Hi. apply (di_mem _ Hi'). apply inv_meta_fams; auto.
-      - intros n r. unfold d1 at 1. cbn [image_of im_meta ds_meta]. rewrite (di_meta _ Hi). intros Hn.
-        rewrite (alookup_image_dirs_gen d1) by (apply (di_mem _ Hi')). unfold d1. cbn [ds_mem ds_orphans].
-        unfold mem', set_table. rewrite alookup_ainsert. destruct (beqb n name) eqn:En.
-        + apply beqb_eq in En. subst. rewrite Hl in Hn. discriminate.
-        + destruct (alookup n (ds_mem d)); [discriminate|]. apply He. }
-    destruct Hin as [Hin|[Hin|[]]]; injection Hin as _ <-; auto. apply set_meta_ok; auto. apply Hw'.
-  - destruct Hin as [Hin|[Hin|[]]]; injection Hin as _ <-; auto. apply set_dir_ok; auto.
+    assert (H1 : image_wf (image_of d1)).
+    { apply image_of_wf_gen; unfold d1; cbn [ds_mem ds_meta ds_orphans]; try apply Hi. apply (di_mem _ Hi'). apply inv_meta_fams; auto. }
+    destruct Hin as [Hin|[Hin|[]]]; injection Hin as _ <-; auto. apply set_meta_wf; auto. apply Hw'.
+  - destruct Hin as [Hin|[Hin|[]]]; injection Hin as _ <-; auto. apply set_dir_wf; auto.
 Qed.
 
 Inductive dreach : dstate -> Prop :=
@@ -788,13 +808,15 @@ Inductive dreach : dstate -> Prop :=
 | DR_restart d : dreach d -> dreach (boot (image_of d))                       (* stop or kill between requests, start *)
 | DR_crash d c nm im : dreach d -> In (nm, im) (snd (dstep d c)) -> dreach (boot im).   (* kill inside a request, start *)
 
-Theorem dreach_inv : forall d, dreach d -> disk_inv d /\ orphans_empty d.
+(* the invariant holds after every history; directories without a definition may hold rows
+   ([dreach_orphan_with_rows] below), they are never under a live name ([di_disjoint]) *)
+Theorem dreach_inv : forall d, dreach d -> disk_inv d.
 Proof.
-  intros d H. induction H as [|d c H [IH1 IH2]|d H [IH1 IH2]|d c nm im H [IH1 IH2] Hin].
-  - split; [apply init_inv|]. intros n r H. discriminate.
-  - split; [apply disk_inv_step; auto|apply orphans_empty_step; auto].
-  - pose proof (image_of_ok d IH1 IH2) as Hok. split; [apply boot_inv; apply Hok|apply boot_orphans_empty; auto].
-  - pose proof (crash_image_ok d c nm im IH1 IH2 Hin) as Hok. split; [apply boot_inv; apply Hok|apply boot_orphans_empty; auto].
+  intros d H. induction H as [|d c H IH|d H IH|d c nm im H IH Hin].
+  - apply init_inv.
+  - apply disk_inv_step; auto.
+  - apply boot_inv, image_of_wf; auto.
+  - apply boot_inv. apply (crash_image_wf d c nm im IH Hin).
 Qed.
 
 Lemma drun_dreach cs : forall d, dreach d -> dreach (fst (drun d cs)).
@@ -817,10 +839,10 @@ Theorem crash_restart_cycles : forall d, dreach d ->
         /\ (no_effective_drop (ds_mem d) c ->
             srv_eq (restart im) (restart (image_of d)) \/ srv_eq (restart im) (restart (image_of (fst (fst (dstep d c))))))).
 Proof.
-  intros d H. destruct (dreach_inv d H) as [Hi He]. split; [apply restart_image_of_eq; auto|]. split.
+  intros d H. pose proof (dreach_inv d H) as Hi. split; [apply restart_image_of_eq; auto|]. split.
   - intros cs. rewrite restart_image_of_eq by (apply disk_inv_run; auto). apply drun_mem.
   - intros c nm im Hin. split; [reflexivity|]. split.
-    + apply restart_boot. apply (crash_image_ok d c nm im Hi He Hin).
+    + apply restart_boot. apply (crash_image_wf d c nm im Hi Hin).
     + intros Hg. eapply crash_atomic_partial; eauto.
 Qed.
 
@@ -830,8 +852,8 @@ Corollary crash_atomic_program : forall cs c nm im,
   srv_eq (restart im) (fst (run [] cs)) \/ srv_eq (restart im) (fst (run [] (cs ++ [c]))).
 Proof.
   intros cs c nm im d Hg Hin. pose proof (drun_dreach cs _ DR_init) as Hr. fold d in Hr.
-  destruct (dreach_inv d Hr) as [Hi He]. destruct (mem_is_sequential cs) as [Hm _]. fold d in Hm.
-  rewrite <- Hm in Hg. destruct (crash_atomic_mem d c Hi He Hg nm im Hin) as [G|G].
+  pose proof (dreach_inv d Hr) as Hi. destruct (mem_is_sequential cs) as [Hm _]. fold d in Hm.
+  rewrite <- Hm in Hg. destruct (crash_atomic_mem d c Hi Hg nm im Hin) as [G|G].
   - left. rewrite <- Hm. exact G.
   - right. destruct (dstep_mem d c) as [G1 _]. rewrite G1, Hm in G.
     assert (Hrun : forall l s, fst (run s (l ++ [c])) = fst (step (fst (run s l)) c)).
@@ -880,9 +902,10 @@ Proof.
   intros Hi Hl0 Hnc Hin. assert (Hm : alookup x (ds_meta d) = None) by (rewrite (di_meta _ Hi), Hl0; reflexivity).
   dstep_cases d c; cbn [fst snd] in *; try contradiction.
   - assert (Hne : x <> name) by (intros ->; exact (Hnc _ _ _ R eq_refl)).
-    assert (Hm1 : im_meta im1 = ds_meta d) by (unfold im1; destruct (alookup name (im_dirs im0)); reflexivity).
-    destruct Hin as [Hin|[Hin|[Hin|[]]]]; injection Hin as _ <-; unfold im3, im2; cbn [set_dir set_meta im_meta];
-      rewrite ?Hm1; auto; rewrite alookup_ainsert_other; auto.
+    destruct Hin as [Hin|[Hin|[Hin|[Hin|[]]]]]; injection Hin as _ <-; unfold im3, im2, im1, imc, im0;
+      cbn [set_dir set_meta im_meta image_of]; auto; rewrite alookup_ainsert_other; auto.
+  - destruct Hin as [Hin|[]]; injection Hin as _ <-. cbn [unset_meta image_of im_meta].
+    rewrite alookup_aremove by (apply (di_meta_sorted _ Hi)). destruct (beqb x name); auto.
   - assert (Hne : x <> name) by (intros ->; congruence).
     destruct Hin as [Hin|[Hin|[]]]; injection Hin as _ <-; cbn [image_of set_meta im_meta ds_meta]; auto.
     rewrite alookup_ainsert_other; auto.
@@ -894,9 +917,9 @@ Lemma reach_nc_absent name d0 d : dreach d0 -> alookup name (ds_mem d0) = None -
 Proof.
   intros H0 Hl H. induction H as [|d c H IH Hnc|d H IH|d c nm im H IH Hnc Hin]; auto.
   - destruct (dstep_mem d c) as [G _]. rewrite G. apply absent_stays_absent; auto.
-  - destruct (dreach_inv d (reach_nc_dreach _ _ _ H0 H)) as [Hi _].
+  - pose proof (dreach_inv d (reach_nc_dreach _ _ _ H0 H)) as Hi.
     cbn [boot ds_mem]. rewrite restart_image_of_eq; auto.
-  - destruct (dreach_inv d (reach_nc_dreach _ _ _ H0 H)) as [Hi _].
+  - pose proof (dreach_inv d (reach_nc_dreach _ _ _ H0 H)) as Hi.
     cbn [boot ds_mem]. rewrite alookup_restart, (crash_image_meta_absent d c nm im name Hi IH Hnc Hin). reflexivity.
 Qed.
 
@@ -912,15 +935,39 @@ Theorem deleted_table_stays_deleted : forall d name now coins, dreach d ->
        /\ forall c2 nm im, not_create name c2 -> In (nm, im) (snd (dstep d2 c2)) -> alookup name (restart im) = None.
 Proof.
   intros d name0 now coins Hr c Hok d'. pose proof (DR_step d c Hr) as Hr'. fold d' in Hr'.
-  destruct (dreach_inv d Hr) as [Hi _]. destruct (dreach_inv d' Hr') as [Hi' _].
+  pose proof (dreach_inv d Hr) as Hi. pose proof (dreach_inv d' Hr') as Hi'.
   assert (Hl' : alookup name0 (ds_mem d') = None).
   { unfold d', c in *. dstep_cases d (mkCall (BDeleteTable name0) now coins); cbn [fst snd cl_req ds_mem] in *; try discriminate; try contradiction.
     injection R as <-. apply alookup_aremove_same. apply (di_mem _ Hi). }
   split; [rewrite restart_image_of_eq; auto|].
   intros d2 H2. pose proof (reach_nc_absent _ _ _ Hr' Hl' H2) as Hl2.
-  destruct (dreach_inv d2 (reach_nc_dreach _ _ _ Hr' H2)) as [Hi2 _].
+  pose proof (dreach_inv d2 (reach_nc_dreach _ _ _ Hr' H2)) as Hi2.
   split; [rewrite restart_image_of_eq; auto|].
   intros c2 nm im Hnc Hin. rewrite alookup_restart, (crash_image_meta_absent d2 c2 nm im name0 Hi2 Hl2 Hnc Hin). reflexivity.
+Qed.
+
+(* ... also when the DeleteTable itself is killed (disk.delete.undefined: the directory, with its
+   rows, is still there): the table is absent from the restart on that image and from every later
+   restart until a CreateTable of that name *)
+Theorem killed_delete_stays_deleted : forall d name now coins, dreach d ->
+  let c := mkCall (BDeleteTable name) now coins in
+  forall nm im, In (nm, im) (snd (dstep d c)) ->
+  dreach (boot im) /\ alookup name (restart im) = None
+  /\ forall d2, reach_nc name (boot im) d2 ->
+       alookup name (restart (image_of d2)) = None
+       /\ forall c2 nm2 im2, not_create name c2 -> In (nm2, im2) (snd (dstep d2 c2)) -> alookup name (restart im2) = None.
+Proof.
+  intros d name0 now coins Hr c nm im Hin. pose proof (DR_crash d c nm im Hr Hin) as Hr'.
+  pose proof (dreach_inv d Hr) as Hi.
+  assert (Hl' : alookup name0 (restart im) = None).
+  { unfold c in *. dstep_cases d (mkCall (BDeleteTable name0) now coins); cbn [fst snd cl_req] in *; try discriminate; try contradiction.
+    injection R as <-. destruct Hin as [Hin|[]]. injection Hin as _ <-.
+    rewrite alookup_restart_unset_meta, beqb_refl by (cbn [image_of im_meta]; apply (di_meta_sorted _ Hi)). reflexivity. }
+  split; [exact Hr'|]. split; [exact Hl'|].
+  intros d2 H2. pose proof (reach_nc_absent name0 (boot im) d2 Hr' Hl' H2) as Hl2.
+  pose proof (dreach_inv d2 (reach_nc_dreach _ _ _ Hr' H2)) as Hi2.
+  split; [rewrite restart_image_of_eq; auto|].
+  intros c2 nm2 im2 Hnc Hin2. rewrite alookup_restart, (crash_image_meta_absent d2 c2 nm2 im2 name0 Hi2 Hl2 Hnc Hin2). reflexivity.
 Qed.
 
 (* a table created while absent (in particular re-created after a delete) restarts empty, at the
@@ -938,12 +985,12 @@ Theorem recreated_table_restarts_empty : forall d parent tid fams now coins, dre
   /\ (forall cs, restart (image_of (fst (drun d' cs))) = fst (run (ds_mem d') cs)).
 Proof.
   intros d parent tid fams now coins Hr name0 Hl c d'. pose proof (DR_step d c Hr) as Hr'. fold d' in Hr'.
-  destruct (dreach_inv d Hr) as [Hi He]. destruct (dreach_inv d' Hr') as [Hi' _].
+  pose proof (dreach_inv d Hr) as Hi. pose proof (dreach_inv d' Hr') as Hi'.
   assert (Hm : ds_mem d' = set_table (ds_mem d) name0 (mkTable (make_fams fams) [])).
   { unfold d'. destruct (dstep_mem d c) as [G _]. rewrite G. unfold c. rewrite create_new; auto. }
   assert (Hg : no_effective_drop (ds_mem d) c) by (apply other_no_effective_drop; intros ? ?; discriminate).
   split; [rewrite restart_image_of_eq, Hm by auto; apply alookup_set_table_same|]. split; [exact Hm|]. split.
-  - intros nm im Hin. destruct (crash_atomic_mem d c Hi He Hg nm im Hin) as [G|G].
+  - intros nm im Hin. destruct (crash_atomic_mem d c Hi Hg nm im Hin) as [G|G].
     + left. rewrite G. exact Hl.
     + right. rewrite G. fold d'. rewrite Hm. apply alookup_set_table_same.
   - intros cs. destruct (crash_restart_cycles d' Hr') as [_ [G _]]. apply G.
@@ -953,7 +1000,7 @@ Qed.
 Lemma restart_after_step d c : dreach d ->
   restart (image_of (fst (fst (dstep d c)))) = fst (step (ds_mem d) c).
 Proof.
-  intros Hr. destruct (dreach_inv _ (DR_step d c Hr)) as [Hi' _]. rewrite restart_image_of_eq by auto. apply dstep_mem.
+  intros Hr. pose proof (dreach_inv _ (DR_step d c Hr)) as Hi'. rewrite restart_image_of_eq by auto. apply dstep_mem.
 Qed.
 
 Theorem dropped_prefix_absent : forall d name p now coins t, dreach d -> alookup name (ds_mem d) = Some t ->
@@ -964,7 +1011,7 @@ Theorem dropped_prefix_absent : forall d name p now coins t, dreach d -> alookup
     /\ (forall k, has_prefix k p = false -> alookup k (t_rows t') = alookup k (t_rows t)).
 Proof.
   intros d name0 p now coins t0 Hr Hl0 d'. unfold d'. rewrite restart_after_step by auto.
-  destruct (dreach_inv d Hr) as [Hi _]. destruct (di_mem _ Hi) as [_ Ht]. destruct (Ht _ _ Hl0) as [Hrows _].
+  pose proof (dreach_inv d Hr) as Hi. destruct (di_mem _ Hi) as [_ Ht]. destruct (Ht _ _ Hl0) as [Hrows _].
   destruct (drop_prefix_lookup (ds_mem d) name0 p now coins t0 Hl0 Hrows) as [t1 [E [Hf [_ [H1 [H2 _]]]]]].
   exists t1. rewrite E. cbn [fst]. split; [apply alookup_set_table_same|]. auto.
 Qed.
@@ -975,14 +1022,14 @@ Theorem cleared_table_restarts_empty : forall d name pfx now coins t, dreach d -
   /\ forall nm im, In (nm, im) (snd (dstep d c)) ->
        alookup name (restart im) = Some t \/ alookup name (restart im) = Some (mkTable (t_fams t) []).
 Proof.
-  intros d name0 pfx now coins t0 Hr Hl0 c. destruct (dreach_inv d Hr) as [Hi He].
+  intros d name0 pfx now coins t0 Hr Hl0 c. pose proof (dreach_inv d Hr) as Hi.
   assert (Hs : fst (step (ds_mem d) c) = set_table (ds_mem d) name0 (mkTable (t_fams t0) [])).
   { unfold c. rewrite (drop_all _ _ pfx now coins _ Hl0). reflexivity. }
   split.
   - rewrite restart_after_step by auto. rewrite Hs. apply alookup_set_table_same.
   - intros nm im Hin.
     assert (Hg : no_effective_drop (ds_mem d) c) by (apply other_no_effective_drop; intros ? ?; discriminate).
-    destruct (crash_atomic_mem d c Hi He Hg nm im Hin) as [G|G]; rewrite G.
+    destruct (crash_atomic_mem d c Hi Hg nm im Hin) as [G|G]; rewrite G.
     + left. exact Hl0.
     + right. destruct (dstep_mem d c) as [G1 _]. rewrite G1, Hs. apply alookup_set_table_same.
 Qed.
@@ -1003,7 +1050,7 @@ Theorem deleted_row_absent : forall d name key muts now coins, dreach d ->
 Proof.
   intros d name0 key muts now coins Hr c Hok. rewrite restart_after_step by auto.
   destruct (dstep_mem d c) as [_ G]. rewrite G in Hok. clear G.
-  destruct (dreach_inv d Hr) as [Hi _]. destruct (di_mem _ Hi) as [_ Ht].
+  pose proof (dreach_inv d Hr) as Hi. destruct (di_mem _ Hi) as [_ Ht].
   unfold c, step in *. cbn [cl_req cl_now] in *. destruct (alookup name0 (ds_mem d)) as [t0|] eqn:El; [|discriminate].
   rewrite apply_mutations_app in *. destruct (apply_mutations (t_fams t0) now (get_row t0 key) muts); [|discriminate].
   cbn [apply_mutations apply_mutation fst] in *. exists (update_row t0 key []). split; [apply alookup_set_table_same|].
@@ -1029,7 +1076,7 @@ Theorem dropped_family_absent : forall d name f now coins t, dreach d -> alookup
     /\ (forall k, alookup k (t_rows t) = None -> alookup k (t_rows t') = None).
 Proof.
   intros d name0 f now coins t0 Hr Hl0 Hk d'. unfold d'. rewrite restart_after_step by auto.
-  destruct (dreach_inv d Hr) as [Hi _]. destruct (di_mem _ Hi) as [_ Ht]. destruct (Ht _ _ Hl0) as [Hrows Hfams].
+  pose proof (dreach_inv d Hr) as Hi. destruct (di_mem _ Hi) as [_ Ht]. destruct (Ht _ _ Hl0) as [Hrows Hfams].
   rewrite (drop_family_step _ _ _ now coins _ Hl0 Hk). cbn [fst]. exists (drop_family t0 f).
   split; [apply alookup_set_table_same|].
   destruct (drop_family_removes_exactly t0 f Hfams Hrows) as [H1 [H2 [_ [_ [H5 _]]]]].
@@ -1078,27 +1125,152 @@ Example bt18_restarts :
   /\ view (restart (image_of (fst (fst (dstep d c))))) = Some ([[103%N]], []).
 Proof. vm_compute. repeat split; reflexivity. Qed.
 
-(* the model also covers directories left without a definition file.  If such a directory holds
-   rows - which no instrumented crash point produces ([dreach_inv]), but a kill inside DeleteTable
-   between os.Remove(definition) and os.RemoveAll(directory) would - a later CreateTable killed at
-   disk.meta.renamed restarts serving the OLD rows under the new definition *)
-Definition ex_orphan_state : dstate :=
-  mkDState [] [] [(ex_name, [([97%N], [mkFam [102%N] [mkCol [113%N] [mkCell 1000 [118%N] []]]])])].
-
-Theorem crash_atomic_create_orphan_refuted :
-  disk_inv ex_orphan_state /\ ~ orphans_empty ex_orphan_state
-  /\ exists c im,
-       In (s_meta_renamed, im) (snd (dstep ex_orphan_state c))
-       /\ ~ srv_eq (restart im) (restart (image_of ex_orphan_state))
-       /\ ~ srv_eq (restart im) (restart (image_of (fst (fst (dstep ex_orphan_state c))))).
+(* ---- directories without a definition that hold rows ---- *)
+(* DeleteTable removes the definition file and then the directory; killed in between
+   (disk.delete.undefined) it leaves the directory, with its rows, without a definition.  The
+   restarted server does not have the table: the state AFTER the request.  All other tables are
+   unchanged, and the directory is an orphan of the started server, rows included *)
+Theorem crash_in_delete_is_after : forall d name now coins, disk_inv d ->
+  let c := mkCall (BDeleteTable name) now coins in
+  br_code (snd (fst (dstep d c))) = cOK ->
+  let d' := fst (fst (dstep d c)) in
+  exists im t, snd (dstep d c) = [(s_delete_undefined, im)]
+    /\ alookup name (ds_mem d) = Some t
+    /\ srv_eq (restart im) (restart (image_of d'))
+    /\ alookup name (restart im) = None
+    /\ (forall n, n <> name -> alookup n (restart im) = alookup n (restart (image_of d)))
+    /\ alookup name (im_dirs im) = Some (t_rows t)
+    /\ alookup name (ds_orphans (boot im)) = Some (t_rows t).
 Proof.
-  split; [|split].
-  - split; cbn [ex_orphan_state ds_mem ds_meta ds_orphans]; try (constructor; fail); try discriminate; auto.
-    + split; [constructor|discriminate].
-    + intros n r. cbn [alookup]. destruct (beqb n ex_name); [|discriminate]. intros H. injection H as <-. constructor.
-  - intros H. specialize (H ex_name _ eq_refl). discriminate.
-  - exists (ex_create ex_fg). eexists. split; [vm_compute; right; left; reflexivity|].
-    split; intros H; specialize (H ex_name); vm_compute in H; discriminate.
+  intros d name0 now coins Hi c Hok d'. pose proof (disk_inv_step d c Hi) as Hi'. fold d' in Hi'.
+  pose proof (restart_image_of d Hi) as Hb. pose proof (restart_image_of d' Hi') as Hb'.
+  assert (Hms : asorted (im_meta (image_of d))) by (cbn [image_of im_meta]; apply (di_meta_sorted _ Hi)).
+  unfold d', c in *.
+  dstep_cases d (mkCall (BDeleteTable name0) now coins); cbn [fst snd cl_req ds_mem] in *; try discriminate; try contradiction.
+  injection R as <-. exists (unset_meta (image_of d) name0), t.
+  assert (Hdir : alookup name0 (im_dirs (unset_meta (image_of d) name0)) = Some (t_rows t)).
+  { cbn [unset_meta im_dirs]. rewrite alookup_image_dirs, Hl by auto. reflexivity. }
+  split; [reflexivity|]. split; [exact Hl|]. split; [|split; [|split; [|split]]].
+  - intros n. rewrite alookup_restart_unset_meta, Hb', Hb by auto.
+    rewrite alookup_aremove by (apply (di_mem _ Hi)). reflexivity.
+  - rewrite alookup_restart_unset_meta, beqb_refl by auto. reflexivity.
+  - intros n Hn. rewrite alookup_restart_unset_meta by auto. apply beqb_neq in Hn. rewrite Hn. reflexivity.
+  - exact Hdir.
+  - rewrite boot_orphans, (alookup_filter_keys (no_def (unset_meta (image_of d) name0))). unfold no_def.
+    cbn [unset_meta im_meta]. rewrite alookup_aremove_same by auto. exact Hdir.
+Qed.
+
+(* CreateTable removes a leftover directory before anything else: a kill at any of its four crash
+   points restarts to the state before or the state after the request, WHATEVER the directories
+   without a definition hold (only [disk_inv]; in particular old rows under the created name) *)
+Theorem crash_atomic_create_with_orphan : forall d parent tid fams now coins, disk_inv d ->
+  let c := mkCall (BCreateTable parent tid fams) now coins in
+  let d' := fst (fst (dstep d c)) in
+  forall nm im, In (nm, im) (snd (dstep d c)) ->
+  srv_eq (restart im) (restart (image_of d)) \/ srv_eq (restart im) (restart (image_of d')).
+Proof.
+  intros d parent tid fams now coins Hi c d' nm im Hin. unfold d'. eapply crash_atomic_partial; eauto.
+  apply other_no_effective_drop. intros ? ?. discriminate.
+Qed.
+
+(* ... point by point: at the first two the table is absent, at the last two it is defined and empty *)
+Theorem create_crash_points_exact : forall d parent tid fams now coins, disk_inv d ->
+  let name := table_name parent tid in
+  let c := mkCall (BCreateTable parent tid fams) now coins in
+  br_code (snd (fst (dstep d c))) = cOK ->
+  exists imc im1 im2 im3,
+    snd (dstep d c) = [(s_create_cleaned, imc); (s_meta_tmp, im1); (s_meta_renamed, im2); (s_db_removed, im3)]
+    /\ srv_eq (restart imc) (ds_mem d) /\ srv_eq (restart im1) (ds_mem d)
+    /\ alookup name (restart imc) = None /\ alookup name (restart im1) = None
+    /\ alookup name (restart im2) = Some (mkTable (make_fams fams) [])
+    /\ alookup name (restart im3) = Some (mkTable (make_fams fams) [])
+    /\ alookup name (im_dirs imc) = None /\ alookup name (im_dirs im3) = None.
+Proof.
+  intros d parent0 tid0 fams0 now coins Hi name0 c Hok.
+  assert (Hg : no_effective_drop (ds_mem d) c) by (apply other_no_effective_drop; intros ? ?; discriminate).
+  pose proof (crash_atomic_mem d c Hi Hg) as Hat. pose proof (iw_dirs _ (image_of_wf d Hi)) as Hds.
+  unfold c in *.
+  dstep_cases d (mkCall (BCreateTable parent0 tid0 fams0) now coins); cbn [fst snd cl_req ds_mem] in *; try discriminate; try contradiction.
+  injection R as <- <- <-. change name0 with name. clear name0. exists imc, im1, im2, im3. split; [reflexivity|].
+  assert (Hmeta : alookup name (im_meta im0) = None).
+  { unfold im0. cbn [image_of im_meta]. rewrite (di_meta _ Hi), Hl. reflexivity. }
+  assert (Hn0 : alookup name (restart imc) = None) by (rewrite alookup_restart; change (im_meta imc) with (im_meta im0); rewrite Hmeta; reflexivity).
+  assert (Hn1 : alookup name (restart im1) = None) by (rewrite alookup_restart; change (im_meta im1) with (im_meta im0); rewrite Hmeta; reflexivity).
+  assert (H2 : alookup name (restart im2) = Some (mkTable tf [])).
+  { unfold im2. rewrite alookup_restart_set_meta, beqb_refl. unfold dir_rows, im1. cbn [set_dir im_dirs].
+    rewrite alookup_ainsert_same. reflexivity. }
+  assert (H3 : alookup name (restart im3) = Some (mkTable tf [])).
+  { unfold im3. rewrite alookup_restart_set_dir, beqb_refl by (unfold im2, im1; cbn [set_meta set_dir im_dirs]; apply ainsert_sorted, aremove_sorted; auto).
+    unfold im2. cbn [set_meta im_meta]. rewrite alookup_ainsert_same. reflexivity. }
+  assert (Hsame : forall im, alookup name (restart im) = None ->
+            srv_eq (restart im) (ds_mem d) \/ srv_eq (restart im) (set_table (ds_mem d) name (mkTable tf [])) ->
+            srv_eq (restart im) (ds_mem d)).
+  { intros im Hn [G|G]; auto. specialize (G name). rewrite Hn, alookup_set_table_same in G. discriminate. }
+  split; [apply Hsame; auto; apply (Hat s_create_cleaned); left; reflexivity|].
+  split; [apply Hsame; auto; apply (Hat s_meta_tmp); right; left; reflexivity|].
+  repeat (split; [assumption|]). split.
+  - unfold imc. cbn [set_dir im_dirs]. apply alookup_aremove_same. auto.
+  - unfold im3. cbn [set_dir im_dirs]. apply alookup_aremove_same.
+    unfold im2, im1. cbn [set_meta set_dir im_dirs]. apply ainsert_sorted, aremove_sorted. auto.
+Qed.
+
+(* a state with a directory holding a row and no definition: create, write, DeleteTable killed at
+   disk.delete.undefined, start.  It is reachable, and [orphans_empty] fails on it *)
+Definition ex_pick (nm : bytes) (pts : list (bytes * image)) : image :=
+  match find (fun q => beqb (fst q) nm) pts with Some q => snd q | None => mkImage [] [] end.
+Definition ex_row97 : rows_t := [([97%N], [mkFam [102%N] [mkCol [113%N] [mkCell 1000 [118%N] []]]])].
+Definition ex_delete : call := mkCall (BDeleteTable ex_name) 0%Z [].
+Definition ex_before_delete : dstate := fst (drun init_dstate [ex_create ex_fg; ex_put 97 102]).
+Definition ex_killed_delete : dstate := boot (ex_pick s_delete_undefined (snd (dstep ex_before_delete ex_delete))).
+
+Example dreach_orphan_with_rows :
+  dreach ex_killed_delete /\ disk_inv ex_killed_delete
+  /\ ex_killed_delete = mkDState [] [] [(ex_name, ex_row97)]
+  /\ ~ orphans_empty ex_killed_delete
+  /\ ex_killed_delete = next_boot (fst (fst (dstep ex_before_delete ex_delete))) (snd (dstep ex_before_delete ex_delete))
+                                   (Some s_delete_undefined).
+Proof.
+  assert (Hr : dreach ex_killed_delete).
+  { unfold ex_killed_delete. eapply (DR_crash ex_before_delete ex_delete s_delete_undefined).
+    - apply drun_dreach, DR_init.
+    - vm_compute. left. reflexivity. }
+  split; [exact Hr|]. split; [apply dreach_inv; exact Hr|]. split; [vm_compute; reflexivity|]. split.
+  - intros H. assert (E : alookup ex_name (ds_orphans ex_killed_delete) = Some ex_row97) by (vm_compute; reflexivity).
+    specialize (H _ _ E). discriminate.
+  - vm_compute. reflexivity.
+Qed.
+
+(* CreateTable on that state: (families, row keys) of the table served at the four crash points and after *)
+Example create_over_orphan_with_rows :
+  let view (s : server) := match alookup ex_name s with
+                           | Some t => Some (map fst (t_fams t), map fst (t_rows t))
+                           | None => None end in
+  map (fun p => (fst p, view (restart (snd p)))) (snd (dstep ex_killed_delete (ex_create ex_fg)))
+  = [ (s_create_cleaned, None); (s_meta_tmp, None);
+      (s_meta_renamed, Some ([[102%N]; [103%N]], [])); (s_db_removed, Some ([[102%N]; [103%N]], [])) ]
+  /\ view (restart (image_of (fst (fst (dstep ex_killed_delete (ex_create ex_fg)))))) = Some ([[102%N]; [103%N]], [])
+  /\ ds_orphans (fst (fst (dstep ex_killed_delete (ex_create ex_fg)))) = [].
+Proof. vm_compute. repeat split; reflexivity. Qed.
+
+(* the double kill: create, write a row, DeleteTable killed at disk.delete.undefined, start,
+   CreateTable killed at disk.meta.renamed, start: the table is defined and EMPTY, and no directory
+   is left without a definition *)
+Definition ex_double_kill : dstate :=
+  boot (ex_pick s_meta_renamed (snd (dstep ex_killed_delete (ex_create ex_fg)))).
+
+Example double_kill_table_empty :
+  dreach ex_double_kill
+  /\ ds_mem ex_double_kill = [(ex_name, mkTable (make_fams ex_fg) [])]
+  /\ ds_orphans ex_double_kill = []
+  /\ ex_double_kill = next_boot (fst (fst (dstep ex_killed_delete (ex_create ex_fg)))) (snd (dstep ex_killed_delete (ex_create ex_fg)))
+                                 (Some s_meta_renamed)
+  /\ alookup ex_name (restart (image_of ex_before_delete)) = Some (mkTable (make_fams ex_fg) ex_row97).
+Proof.
+  split.
+  - unfold ex_double_kill. eapply (DR_crash ex_killed_delete (ex_create ex_fg) s_meta_renamed).
+    + apply dreach_orphan_with_rows.
+    + vm_compute. right. right. left. reflexivity.
+  - vm_compute. repeat split; reflexivity.
 Qed.
 
 (* a program with create, writes, clear, delete, re-create *)
@@ -1116,9 +1288,9 @@ Definition ex_view (s : server) : list (bytes * (list bytes * list bytes)) :=
 (* every request is acknowledged; the crash points passed, by name *)
 Example ex_prog_acks :
   map (fun r => (br_code (fst r), map fst (snd r))) (snd (drun init_dstate ex_prog))
-  = [ (cOK, [s_meta_tmp; s_meta_renamed; s_db_removed]); (cOK, []); (cOK, []);
-      (cOK, [s_clear_closed; s_db_removed]); (cOK, []); (cOK, [s_meta_tmp; s_meta_renamed]); (cOK, []);
-      (cOK, [s_meta_tmp; s_meta_renamed; s_db_removed]); (cOK, []) ].
+  = [ (cOK, [s_create_cleaned; s_meta_tmp; s_meta_renamed; s_db_removed]); (cOK, []); (cOK, []);
+      (cOK, [s_clear_closed; s_db_removed]); (cOK, []); (cOK, [s_meta_tmp; s_meta_renamed]); (cOK, [s_delete_undefined]);
+      (cOK, [s_create_cleaned; s_meta_tmp; s_meta_renamed; s_db_removed]); (cOK, []) ].
 Proof. vm_compute. reflexivity. Qed.
 
 (* what a restart serves at every request boundary of the program *)
@@ -1139,13 +1311,13 @@ Proof. vm_compute. reflexivity. Qed.
 (* ... and at every crash point inside its requests *)
 Example ex_prog_crash_points :
   map (fun r => map (fun p => ex_view (restart (snd p))) (snd r)) (snd (drun init_dstate ex_prog))
-  = [ [ []; [(ex_name, ([[102%N]; [103%N]], []))]; [(ex_name, ([[102%N]; [103%N]], []))] ];
+  = [ [ []; []; [(ex_name, ([[102%N]; [103%N]], []))]; [(ex_name, ([[102%N]; [103%N]], []))] ];
       []; [];
       [ [(ex_name, ([[102%N]; [103%N]], [[97%N]; [98%N]]))]; [(ex_name, ([[102%N]; [103%N]], []))] ];
       [];
       [ [(ex_name, ([[102%N]; [103%N]], [[99%N]]))]; [(ex_name, ([[102%N]; [103%N]; [104%N]], [[99%N]]))] ];
-      [];
-      [ []; [(ex_name, ([[103%N]], []))]; [(ex_name, ([[103%N]], []))] ];
+      [ [] ];
+      [ []; []; [(ex_name, ([[103%N]], []))]; [(ex_name, ([[103%N]], []))] ];
       [] ].
 Proof. vm_compute. reflexivity. Qed.
 
@@ -1153,18 +1325,18 @@ Proof. vm_compute. reflexivity. Qed.
    the table is absent, the guard holds for every request of the program *)
 Example ex_prog_hyps :
   let d := fst (drun init_dstate (firstn 7 ex_prog)) in
-  dreach d /\ disk_inv d /\ orphans_empty d /\ alookup ex_name (ds_mem d) = None
+  dreach d /\ disk_inv d /\ alookup ex_name (ds_mem d) = None
   /\ no_effective_drop (ds_mem (fst (drun init_dstate (firstn 5 ex_prog)))) (nth 5 ex_prog (ex_put 0 0)).
 Proof.
-  cbv zeta. pose proof (drun_dreach (firstn 7 ex_prog) _ DR_init) as H. destruct (dreach_inv _ H) as [H1 H2].
-  split; [exact H|]. split; [exact H1|]. split; [exact H2|]. split; [vm_compute; reflexivity|].
+  cbv zeta. pose proof (drun_dreach (firstn 7 ex_prog) _ DR_init) as H. pose proof (dreach_inv _ H) as H1.
+  split; [exact H|]. split; [exact H1|]. split; [vm_compute; reflexivity|].
   apply no_drop_no_effective_drop. reflexivity.
 Qed.
 
 (* a crash image with an orphan directory (create killed at disk.meta.tmp), restarted, then used *)
 Example ex_crash_then_continue :
   let c := ex_create ex_fg in
-  let im := snd (nth 0 (snd (dstep init_dstate c)) (s_meta_tmp, mkImage [] [])) in
+  let im := snd (nth 1 (snd (dstep init_dstate c)) (s_meta_tmp, mkImage [] [])) in
   im = mkImage [] [(ex_name, [])]
   /\ ds_orphans (boot im) = [(ex_name, [])]
   /\ ex_view (restart (image_of (fst (drun (boot im) [c; ex_put 97 102])))) = [(ex_name, ([[102%N]; [103%N]], [[97%N]]))].
@@ -1201,4 +1373,51 @@ Proof.
   pose proof (server_ok_lookup _ _ _ (C01_history cs) Hl) as Hok.
   destruct (reachable_wf cs) as [_ Ht]. destruct (Ht _ _ Hl) as [_ Hf].
   apply drop_cellless_family_rows; eauto.
+Qed.
+
+(* ------------------------------------------------------------------ *)
+(* the checker (BT/DiskCheck.v) only visits states of the theory: the state a program segment starts
+   in - the directory as the stopped server left it, or the image at the marked crash point of the
+   segment's last request - is a [dreach] state *)
+(* ------------------------------------------------------------------ *)
+Theorem next_boot_dreach : forall d0 c crash, dreach d0 ->
+  dreach (next_boot (fst (fst (dstep d0 c))) (snd (dstep d0 c)) crash).
+Proof.
+  intros d0 c crash H. pose proof (DR_restart _ (DR_step d0 c H)) as Hclean. unfold next_boot.
+  destruct crash as [p|]; [|exact Hclean].
+  destruct (find (fun q => beqb (fst q) p) (snd (dstep d0 c))) as [[nm im]|] eqn:E; [|exact Hclean].
+  apply find_some in E. destruct E as [Hin _]. cbn [snd]. exact (DR_crash d0 c nm im H Hin).
+Qed.
+
+(* [last] as [dcheck_segment] maintains it: empty, or the crash points of the request that produced the state *)
+Definition last_of (d1 : dstate) (last : list (bytes * image)) : Prop :=
+  last = [] \/ exists d0 c, dreach d0 /\ d1 = fst (fst (dstep d0 c)) /\ last = snd (dstep d0 c).
+
+Lemma next_boot_last_of d1 last crash : dreach d1 -> last_of d1 last -> dreach (next_boot d1 last crash).
+Proof.
+  intros H [->|[d0 [c [H0 [-> ->]]]]]; [|apply next_boot_dreach; auto].
+  unfold next_boot. destruct crash; cbn [find]; apply DR_restart; auto.
+Qed.
+
+Theorem dcheck_segment_dreach : forall names cs obs d i last, dreach d -> last_of d last ->
+  let r := dcheck_segment names d i last cs obs in
+  dreach (fst (fst r)) /\ last_of (fst (fst r)) (snd (fst r)).
+Proof.
+  intros names cs. induction cs as [|c cs IH]; intros obs d i last H Hl; destruct obs as [|[[r pts] after] obs'];
+    cbn [dcheck_segment]; try (cbn [fst snd]; auto; fail).
+  pose proof (DR_step d c H) as H1.
+  assert (Hl1 : last_of (fst (fst (dstep d c))) (snd (dstep d c))) by (right; exists d, c; auto).
+  destruct (dstep d c) as [[d1 rsp] mpts]. cbn [fst snd] in H1, Hl1.
+  destruct (resp_eqb rsp r && points_eqb names mpts pts && resps_eqb (probe (restart (image_of d1)) names) after).
+  - apply IH; auto.
+  - cbn [fst snd]. auto.
+Qed.
+
+(* every state a case of the checker starts a segment in is a state of the theory *)
+Corollary dcheck_next_segment_dreach : forall names cs obs crash d i, dreach d ->
+  let r := dcheck_segment names d i [] cs obs in
+  dreach (next_boot (fst (fst r)) (snd (fst r)) crash).
+Proof.
+  intros names cs obs crash d i H r. destruct (dcheck_segment_dreach names cs obs d i [] H (or_introl eq_refl)) as [H1 H2].
+  apply next_boot_last_of; auto.
 Qed.
